@@ -34,7 +34,7 @@ def asan_runtime():
     return _ASAN_RT
 
 
-def _read_status(path):
+def _read_status(path, calls=None):
     begun, done, pid, loaded, quit_ = [], {}, None, None, False
     if not path.exists():
         return begun, done, pid, loaded, quit_
@@ -47,6 +47,13 @@ def _read_status(path):
                 done[int(i)] = json.loads(js)
             except Exception:
                 pass
+        elif line.startswith("C "):
+            if calls is not None:
+                _, i, js = line.split(" ", 2)
+                try:
+                    calls.setdefault(int(i), []).append(json.loads(js))
+                except Exception:
+                    pass
         elif line.startswith("P "):
             pid = int(line[2:])
         elif line.startswith("L "):
@@ -66,6 +73,7 @@ def run_probes(probes, native_dir, repo, workdir, per_probe_timeout=60.0, batch_
     pfile = workdir / "probes.json"
     pfile.write_text(json.dumps(probes))
     results = [None] * len(probes)
+    allcalls = {}
     start, attempt = 0, 0
     t_batch = time.time()
     info = info if info is not None else {}
@@ -97,12 +105,15 @@ def run_probes(probes, native_dir, repo, workdir, per_probe_timeout=60.0, batch_
                 break
             except subprocess.TimeoutExpired:
                 pass
-            begun, done, _, _, _ = _read_status(status)
-            n = len(begun) + len(done)
+            # progress = the status file grows (every probe appends at least its B and E lines)
+            try:
+                n = status.stat().st_size
+            except OSError:
+                n = 0
             if n != last_n:
                 last_n, last_progress = n, time.time()
             # the first probe also pays the imports (numpy, pandas, hydrodiy under ASan): allow more
-            limit = per_probe_timeout * (3 if not done else 1)
+            limit = per_probe_timeout * (3 if n < 200 else 1)
             if time.time() - last_progress > limit or time.time() - t_batch > batch_timeout:
                 killed = "timeout"
                 try:
@@ -113,7 +124,10 @@ def run_probes(probes, native_dir, repo, workdir, per_probe_timeout=60.0, batch_
                 break
         so.close()
         se.close()
-        begun, done, pid, loaded, quit_ = _read_status(status)
+        calls = {}
+        begun, done, pid, loaded, quit_ = _read_status(status, calls)
+        for i, cl in calls.items():
+            allcalls.setdefault(i, []).extend(cl)
         if loaded:
             info["loaded"] = loaded
         for i, o in done.items():
@@ -160,4 +174,5 @@ def run_probes(probes, native_dir, repo, workdir, per_probe_timeout=60.0, batch_
     for i, r in enumerate(results):
         if r is None:
             results[i] = {"ret": "notrun", "val": None, "reports": [], "signal": None}
+        results[i]["calls"] = allcalls.get(i, [])
     return results
